@@ -514,10 +514,36 @@ C15.applies = lambda m: bool(_time_values(m)) if any(f.is_timestamp or f.is_dura
 # ===================================================================== C20
 
 
+def _extra_enums():
+    """enum shapes beyond Color: aliases of 0, negative aliases, gaps, several aliases (declared here at run time)"""
+    out = []
+    shapes = {
+        "ZeroAlias": [("UNSPECIFIED", 0), ("DEFAULT", 0), ("ONE", 1)],
+        "NegAlias": [("ZERO", 0), ("MINUS", -1), ("NEG", -1), ("LOW", -(2**31))],
+        "Gaps": [("A", 0), ("B", 5), ("C", 1000), ("D", 2**31 - 1)],
+        "ManyAlias": [("Z", 0), ("P", 2), ("Q", 2), ("R", 2), ("Z2", 0), ("S", 3)],
+    }
+    for name, decl in shapes.items():
+        ns = {}
+        for n, v in decl:
+            ns[n] = v
+        cls = betterproto.enum.EnumType(name, (betterproto.Enum,), ns)
+        out.append((cls, decl))
+    return out
+
+
 def _c20_static(rnd):
     col = Collector("C20")
+    for EnumCls, decl in [(C.Color, C.ENUMS["Color"])] + _extra_enums():
+        _c20_lookup(col, EnumCls, decl)
     Color = C.Color
     decl = C.ENUMS["Color"]
+    _c20_rest(col, Color, decl)
+    return col.result()
+
+
+def _c20_lookup(col, Color, decl):
+    tag = "" if Color is C.Color else ":alias-shapes"
     canon = {}
     for name, num in decl:
         canon.setdefault(num, name)
@@ -536,19 +562,26 @@ def _c20_static(rnd):
                 try:
                     got = fn()
                 except Exception as e:
-                    col.add("lookup-raises:%s" % what, "%s(%s/%d): %s" % (what, name, num, exc(e)))
+                    col.add("lookup-raises:%s%s" % (what, tag), "%s(%s/%d): %s" % (what, name, num, exc(e)))
                     continue
                 if got is not member:
-                    col.add("lookup-not-canonical:%s" % what, "%s for %s/%d gives %r (id differs from Color.%s)" % (what, name, num, got, cname))
+                    col.add("lookup-not-canonical:%s%s" % (what, tag), "%s: %s for %s/%d gives %r (id differs from .%s)" % (Color.__name__, what, name, num, got, cname))
             if member.name != cname or member.value != num or int(member) != num:
-                col.add("member-name-number", "Color.%s has name %r value %r" % (cname, member.name, member.value))
+                col.add("member-name-number%s" % tag, "%s.%s has name %r value %r" % (Color.__name__, cname, member.name, member.value))
             if copy.copy(member) is not member or copy.deepcopy(member) is not member:
-                col.add("copy-identity", "copy/deepcopy of Color.%s is a different object" % cname)
-            p = pickle.loads(pickle.dumps(member))
-            if p.name != member.name or p.value != member.value or int(p) != num:
-                col.add("pickle-name-number", "Color.%s unpickles as name %r value %r" % (cname, p.name, p.value))
+                col.add("copy-identity%s" % tag, "copy/deepcopy of %s.%s is a different object" % (Color.__name__, cname))
+            if Color is C.Color:
+                p = pickle.loads(pickle.dumps(member))
+                if p.name != member.name or p.value != member.value or int(p) != num:
+                    col.add("pickle-name-number", "Color.%s unpickles as name %r value %r" % (cname, p.name, p.value))
         except Exception as e:
-            col.add("static-raises", exc(e))
+            col.add("static-raises%s" % tag, exc(e))
+
+
+def _c20_rest(col, Color, decl):
+    canon = {}
+    for name, num in decl:
+        canon.setdefault(num, name)
     try:
         names = [x.name for x in Color]
         if sorted(set(names)) != sorted({canon[n] for _, n in decl}):
@@ -588,7 +621,6 @@ def _c20_static(rnd):
                 col.add("mutated:%s" % what, "state changed")
         except Exception as e:
             col.add("mutated:%s" % what, exc(e))
-    return col.result()
 
 
 def _enum_positions(m):
